@@ -276,7 +276,8 @@ func (e *Engine) isMatchTeddy(haystack []byte) bool {
 	// For Fat Teddy with small haystacks, use Aho-Corasick fallback.
 	if e.fatTeddyFallback != nil && len(haystack) < fatTeddySmallHaystackThreshold {
 		atomic.AddUint64(&e.stats.AhoCorasickSearches, 1)
-		return e.fatTeddyFallback.IsMatch(haystack)
+		_, found := e.fatTeddyFallback.Find(haystack, 0)
+		return found
 	}
 
 	atomic.AddUint64(&e.stats.PrefilterHits, 1)
@@ -347,7 +348,11 @@ func (e *Engine) isMatchAhoCorasick(haystack []byte) bool {
 		return e.isMatchNFA(haystack)
 	}
 	atomic.AddUint64(&e.stats.AhoCorasickSearches, 1)
-	return e.ahoCorasick.IsMatch(haystack)
+	// Find, not IsMatch: the automaton's IsMatch rescans the rest of the
+	// haystack for every start byte each time it falls back to its start
+	// state (quadratic on inputs without a match), Find does that once.
+	_, found := e.ahoCorasick.Find(haystack, 0)
+	return found
 }
 
 // isMatchReverseAnchored checks for match using reverse DFA.
